@@ -198,7 +198,7 @@ func main() {
 		if len(prefix) > 0 {
 			ntypes++
 			// every type up to length 3 goes to the model; longer ones sampled (those around a separator always)
-			model := len(prefix) <= 3 || strings.Contains(prefix, "-v0") && ntypes%7 == 0 || ntypes%o.Pick(97, 23) == 0
+			model := len(prefix) <= 3 || strings.Contains(prefix, "-v0") && ntypes%o.Pick(7, 41) == 0 || ntypes%o.Pick(97, 251) == 0
 			roundtrip(prefix, model)
 		}
 		if len(prefix) == maxLen {
@@ -352,9 +352,27 @@ func main() {
 		}
 		res.Dist("corpus_histories")
 	}
+	// known finding (open): the unconditional statement is false. Replayed on the real code every run.
+	// An INVALID hint whose String() equals a text that parses to a registered (type, major) poisons the
+	// one cache slot: Find(invalid) caches `false` under that text, FindByString(text) then answers not found.
+	{
+		ops := []setOp{{Op: "add", Type: "abc", Ver: "v2.0.0", Value: 7}, {Op: "find", Type: "abc-v2", Ver: "v1.0.0"}, {Op: "findstr", S: "abc-v2-v1.0.0"}}
+		st := hint.NewCompatibleSet[uint64](10)
+		_ = st.Add(hint.NewHint("abc", util.EnsureParseVersion("v2.0.0")), 7)
+		bad := hint.NewHint("abc-v2", util.EnsureParseVersion("v1.0.0"))
+		_, _ = st.Find(bad)
+		p, perr := hint.ParseHint("abc-v2-v1.0.0")
+		_, v, found, err := st.FindByString("abc-v2-v1.0.0")
+		res.Evaluations++
+		if perr == nil && err == nil && bad.IsValid(nil) != nil && p.Type() == "abc" && p.Version().Major() == 2 && !(found && v == 7) {
+			res.Fail("lookup-poisoned-by-invalid-hint-string", fmt.Sprintf("Add(abc-v2.0.0,7); Find(invalid hint %q); FindByString(%q) = (%d,%v) but (abc, major 2) is registered with 7", bad.String(), "abc-v2-v1.0.0", v, found), replay{Kind: "set", Size: 10, Ops: ops, At: 2})
+		}
+		runSet(res, cases, 10, ops, true) // undisciplined: compared with the model, not judged by the generic oracle
+		res.Dist("known_finding_witness")
+	}
 	stypes := []string{"abc", "ab-c", "x_y", "abc-v"}
 	sversions := []string{"v0.1.0", "v1.0.0", "v1.2.0", "v1.5.0", "v1.5.0+m", "v1.0.0-a", "v1.0.0-b", "v1.0.0-alpha.1", "v1.0.0-alpha.2", "v1.0.0-alpha.10", "v1.0.0-1.12", "v1.0.0-1.13", "v1.0.0-v1", "v2.0.0", "v2.0.0-rc.1", "v2.1.0", "v1.0.0-x.2", "v1.0.0-x.13"}
-	nh := o.Pick(250, 5000)
+	nh := o.Pick(250, 3000)
 	for i := 0; i < nh; i++ {
 		n := r.Range(3, 24)
 		nt := r.Range(1, 3) // fewer types => more collisions on (type, major)
